@@ -44,6 +44,11 @@ func (sp *Scope) BeginJoinedScope() {
 	sp.joinedDepths[sp.currentDepth] = true
 }
 
+// Depth - current nesting depth
+func (sp *Scope) Depth() int {
+	return sp.currentDepth
+}
+
 func (sp *Scope) BeginScope() {
 	sp.currentDepth++
 }
